@@ -18,7 +18,7 @@ def check(prop, tier):
     v.notes["mcopy"] = {"overrides": ov, "vectors": r["histories"], "by_kind": r.get("byKind"), "mismatching_components": r.get("byComp"), "tlc": stats}
     # transient storage in call trees: per address, reverted with the frame, refused in static frames, fresh per transaction, invalid before Cancun
     base = {"Ops": '{"TSTORE", "T2S", "CALL", "STOP", "REVERT", "INVALID"}', "CallKinds": frame.ALLK, "Targets": '{"a", "b"}', "Values": "{0}",
-            "MaxFailPos": "0", "JPInit": "{FALSE}", "MaxTop": "2", "MaxInstr": "3" if q else "5", "MaxNodes": "3", "SVals": "{0, 1, 2}"}
+            "MaxFailPos": "0", "JPInit": "{FALSE}", "MaxTop": "2", "MaxInstr": "3" if q else "4", "MaxNodes": "3", "SVals": "{0, 1, 2}"}
     for cancun, forks in (("TRUE", ["Cancun"]), ("FALSE", ["London"] if q else ["London", "Shanghai"])):
         o = dict(base, Cancun=cancun)
         if cancun == "FALSE":
